@@ -117,8 +117,8 @@ def register(w):
     w.repo_classes[FSC] = (MF, "FunctionScope")
     w.add_contract(Contract(
         f"{MF}:FunctionScope.__init__", params={"self": Ref(FSC), "parent": Ref(CTX), "name": Str, "domain": Str},
-        ensures=[("child_context_mirrors_parent", post_scope)], ret=NoneT, props=["C11", "C09", "C07"], opaque_externals=True,
-        witnesses=["C11_function_body_opset"],
+        ensures=[("child_context_mirrors_parent", post_scope)], ret=NoneT, props=["C11", "C09", "C07", "C16", "C04"], opaque_externals=True,
+        witnesses=["C11_function_body_opset", "C16_function_dim_without_origin_is_loud"],
     ))
 
 
